@@ -12,6 +12,8 @@
 (*   fixed  fixed vocabularies (duplicates, n-gram entries, unseen entries)                     *)
 (*   mixed  three corpora x cross product of tokeniser, range, window, stop set, cap            *)
 (*   idf    TfIdfMethod::compute_idf(n, df) alone                                               *)
+(*   hist   a builder that was already checked / fitted with settings s1 is re-configured       *)
+(*          through one setter (same value or clone) to s2 and fitted again (kind "hist")       *)
 EXTENDS Integers, Sequences, FiniteSets, TLC, Json
 
 CONSTANTS Big,        \* 0 = quick tier, 1 = thorough tier
@@ -122,8 +124,38 @@ CasesMixed ==
 
 CasesIdf == {[kind |-> "idf", inp |-> [fam |-> "idf", n |-> n, df |-> df]] : n \in 1..(12 + 28 * Big), df \in 0..(12 + 28 * Big)}
 
+\* history: a builder used once with settings s1 (check_ref, or a fit on train1) is re-configured through its
+\* setters -- on the same value or on a clone -- to s2 (one setting changed) and fitted on train; the relation is
+\* the one of a fresh builder with s2 (and, for the clone, the original must still behave as s1).
+HWin(a, b) == [St0 EXCEPT !.dfmin = a, !.dfmax = b, !.tok = "re_w1"]
+HStop(sw)  == [St0 EXCEPT !.hasstop = TRUE, !.stop = sw, !.nmax = 2]
+HCap(k)    == [St0 EXCEPT !.cap = k, !.tok = "re_w1"]
+HRange(r)  == [St0 EXCEPT !.nmin = r[1], !.nmax = r[2]]
+Transitions ==
+  {<<[St0 EXCEPT !.tok = a], [St0 EXCEPT !.tok = b]>> : a \in TokKinds, b \in TokKinds} 
+  \cup {<<[St0 EXCEPT !.lower = x], [St0 EXCEPT !.lower = ~x]>> : x \in BOOLEAN}
+  \cup {<<[St0 EXCEPT !.norm = x], [St0 EXCEPT !.norm = ~x]>> : x \in BOOLEAN}
+  \cup {<<HRange(<<1, 1>>), HRange(<<1, 2>>)>>, <<HRange(<<1, 2>>), HRange(<<2, 2>>)>>, <<HRange(<<2, 3>>), HRange(<<1, 1>>)>>}
+  \cup {<<HWin(<<0, 1>>, <<1, 1>>), HWin(<<1, 2>>, <<1, 1>>)>>, <<HWin(<<1, 2>>, <<1, 1>>), HWin(<<0, 1>>, <<1, 2>>)>>}
+  \cup {<<[St0 EXCEPT !.nmax = 2], HStop(<<aa>>)>>, <<HStop(<<aa>>), HStop(<<bb, JoinS(<<aa, bb>>, SP)>>)>>, <<HStop(<<aa>>), HStop(<<>>)>>}
+  \cup {<<HCap(-1), HCap(1)>>, <<HCap(1), HCap(-1)>>, <<HCap(1), HCap(2)>>}
+HCorpA == << <<97, 32, 98, 98, 59, 32, 65, 97, 32, 99, 99, 32, 233>>,         \* "a bb; Aa cc <e-acute>"
+             <<98, 98, 32, 99, 99, 45, 98, 98, 32, 97>>,                     \* "bb cc-bb a"
+             <<66, 233, 32, 97, 97, 32, 64257, 32, 98, 98>> >>               \* "B<e-acute> aa <fi> bb"
+HCorpB == << <<120, 95, 49, 32, 97, 97, 46, 98, 98>>, <<97, 97, 32, 97, 32, 97, 97>> >>      \* "x_1 aa.bb", "aa a aa"
+HTest  == << <<97, 97, 32, 65, 97, 32, 97, 32, 98, 98, 59, 99, 99, 32, 233, 32, 122>> >>     \* "aa Aa a bb;cc <e-acute> z"
+CasesHist ==
+  {[kind |-> "hist",
+    inp |-> [fam |-> "hist", api |-> u[1], first |-> u[2], via |-> via, st1 |-> t[1], st |-> t[2],
+             train1 |-> cp[1], train |-> cp[2], test |-> HTest, methods |-> <<"smooth">>]] :
+     t \in {x \in Transitions : x[1] # x[2]},
+     u \in {<<"count", "check_ref">>, <<"count", "fit">>, <<"tfidf", "fit">>},
+     via \in {"same", "clone"},
+     cp \in {<<HCorpB, HCorpA>>, <<HCorpA, HCorpA>>}}
+
 CasesOf(fam) ==
-  CASE fam = "ngram" -> CasesNgram
+  CASE fam = "hist"  -> CasesHist
+    [] fam = "ngram" -> CasesNgram
     [] fam = "dfwin" -> CasesDfwin
     [] fam = "cap"   -> CasesCap
     [] fam = "stop"  -> CasesStop
